@@ -148,8 +148,9 @@ def proof_stage(pid, tier):
         bad = set()
         for f in files:
             src_lines = open(os.path.join(LEAN, "GdVerif", "Props", f + ".lean")).read().split("\n")
-            for m in re.finditer(r"Props/%s\.lean:(\d+):\d+: error" % f, out):
-                ln = int(m.group(1))
+            # lean prints `file:line:col: error: …`, lake relays it as `error: file:line:col: …`
+            for m in re.finditer(r"Props/%s\.lean:(\d+):\d+: error|error: \S*Props/%s\.lean:(\d+):\d+:" % (f, f), out):
+                ln = int(m.group(1) or m.group(2))
                 for k in range(min(ln, len(src_lines)) - 1, -1, -1):
                     mm = re.match(r"^(?:theorem|def|example|lemma)\s+([A-Za-z0-9_.']+)?", src_lines[k])
                     if mm:
